@@ -610,7 +610,14 @@ func (g *gen) exit(d int, last bool) []Stmt {
 	c := cands[g.pick(len(cands), "exit")].(tagged)
 	g.feat(c.tag)
 	if !last || g.chance(70, "condexit") {
-		return []Stmt{&If{Cond: g.expr(TBool, 2), Then: []Stmt{c.s}}}
+		cond := g.expr(TBool, 2)
+		if n := len(g.sc.statics); n > 0 && g.chance(35, "exitoncounter") {
+			// exit on a particular iteration (first, last, one in the middle): the guard reads the
+			// innermost readable counter
+			op := []string{">=", "==", "<", "!="}[g.pick(4, "cntop")]
+			cond = &Bin{Op: op, L: g.sc.statics[n-1], R: &Lit{T: TInt, I: int64(g.intn(0, 4, "cntval"))}, T: TBool}
+		}
+		return []Stmt{&If{Cond: cond, Then: []Stmt{c.s}}}
 	}
 	g.feat("bare-exit")
 	return []Stmt{c.s}
